@@ -11,13 +11,20 @@ RULE = ('same plan space as C01 plus termination (terminate/shutdown/close at dr
         'by the independent RFC 9174 decoder and fed, in wire order, to a grammar automaton per endpoint. Non-trivial: at least '
         'one segment or SESS_TERM on the wire; distinct = distinct event-history digests.')
 COMPONENTS = tc.COMPONENTS
-PROBES = ('wire.SESS_TERM', 'wire.segments', 'fault.reset', 'fault.stall', 'fault.kill', 'probe.term_mid_transfer',
+PROBES = ('wire.SESS_TERM', 'wire.segments', 'engine.scripted', 'probe.refuse_in_progress', 'probe.refuse_after_end', 'fault.reset', 'fault.stall', 'fault.kill', 'probe.term_mid_transfer',
           'probe.ack_after_term')
 ASSUMPTIONS = ['as C01', 'MSG_REJECT octet order taken from the repository test vector (DESIGN 3)']
 CHUNK = 10
 
 
 def gen(ch, tier):
+    if ch.coin('scripted', 1, 6):
+        # one real agent against a conforming scripted peer that - unlike the repository's own agent - refuses transfers
+        # (all reason codes, during a transfer and after its last segment): the agent's output is judged by the same automaton
+        from props import C18
+        plan = C18._gen_scripted(ch)
+        plan['terminate'] = None
+        return plan
     prof = dict(min_one=True, backpressure=True, max_bundles=4, liveness=False,
                 big=32768, max_segments=200, allow_zero=ch.coin('allow0', 1, 8))
     mode = ch.weighted('mode', (3, 5, 2, 3))
@@ -35,16 +42,52 @@ def gen(ch, tier):
 
 
 def execute(plan, sched, verbose=False):
+    if plan.get('scenario') == 'tcpcl_scripted':
+        from props import C18
+        run = C18._execute_scripted(plan, sched, verbose)
+        run.viols = []
+        return run
     return tcpcl_pair.run_plan(plan, sched, verbose)
 
 
+def _judge_scripted(run):
+    ''' The agent's output against a conforming scripted peer. All peer messages are fed first (the automaton then knows every
+    segment an acknowledgement may answer, in order); a transfer the peer refused may be abandoned by the agent. '''
+    from ref import rfc9174
+    har = run.har
+    gram = rfc9174.Grammar('V')
+    dec = rfc9174.StreamDecoder()
+    refused = set()
+    for msg in dec.feed(bytes(har.sent), (0, 0)):
+        gram.peer_sent(msg)
+        if msg['kind'] == 'XFER_REFUSE':
+            refused.add(msg['transfer_id'])
+    for msg in har.vmsgs:
+        if msg['kind'] == 'XFER_SEGMENT' and msg['flags'] & rfc9174.FLAG_START and gram.cur_tid in refused:
+            gram.cur_tid = None
+        gram.sent(msg)
+    out = [(clause, tc._grammar_discr(clause, detail), 'agent facing a scripted peer: %s' % detail) for (clause, detail) in gram.errors]
+    if har.vdec.error is not None:
+        out.append(('decode', 'undecodable-output', 'the agent wrote octets no RFC 9174 decoder accepts at offset %d: %s' % har.vdec.error))
+    return out
+
+
 def judge(run):
+    if run.plan.get('scenario') == 'tcpcl_scripted':
+        return _judge_scripted(run)
     obs = tc.Obs(run)
     run.obs = obs
     return tc.check_grammar(obs)
 
 
 def describe(run):
+    if run.plan.get('scenario') == 'tcpcl_scripted':
+        counters = dict(run.wld.counters)
+        counters.update(run.stats)
+        counters['engine.scripted'] = 1
+        counters['wire.segments'] = len([msg for msg in run.har.vmsgs if msg['kind'] == 'XFER_SEGMENT'])
+        return dict(nontrivial=bool(counters['wire.segments']), key=run.wld.digest(), sim_us=run.wld.now, steps=run.wld.steps, capped=run.wld.capped,
+                    counters=counters, sample=dict(engine='scripted', role=run.plan['role'], peer_mru=run.plan['peer_mru'], ops=run.plan['ops'][:12]))
     obs = getattr(run, 'obs', None) or tc.Obs(run)
     extra = {}
     for side in ('A', 'P'):
